@@ -54,13 +54,15 @@ RUST = ("git-py",)
 
 THEOREMS = [
     "unescape_escape", "escape_image", "escape_injective",
-    "encode_decode_surrogateescape", "decode_encode_strict", "encode_decode_strict",
-    "parse_generate_path", "parse_generate_str", "parse_generate_str_witness",
+    "encode_decode_surrogateescape", "encode_decode_surrogateescape_bytes", "decode_encode_strict",
+    "encode_decode_strict",
+    "parse_generate_path", "parse_generate_path_bytes", "parse_generate_str", "parse_generate_str_witness",
     "revid_roundtrip", "revid_roundtrip_rev", "revid_zero_witness",
     "branch_ref_roundtrip", "ref_branch_roundtrip", "branch_ref_refs_witness",
     "tag_ref_roundtrip", "ref_tag_roundtrip",
-    "pct_decode_encode", "url_roundtrip", "url_roundtrip_eff", "url_roundtrip_legacy_witness",
-    "parent_location_roundtrip", "parent_location_roundtrip_url", "parent_location_legacy_witness",
+    "pct_decode_encode", "addRefParams_roundtrip", "url_roundtrip", "effRef_normBR", "url_roundtrip_eff",
+    "url_roundtrip_legacy_witness",
+    "parent_location_roundtrip", "normBR_renorm", "parent_location_roundtrip_url", "parent_location_legacy_witness",
 ]
 
 RULE = ("inputs are drawn from alphabets that contain every delimiter/escape the code looks at "
@@ -1176,7 +1178,8 @@ def replay(ctx, case):
         loc, br, rf = unjs(case["loc"]), unjs(case["branch"]), unjb(case["ref"])
         ok, out = call(I.urls.git_url_to_bzr_url, loc, branch=br, ref=rf)
         impl = dict(git_url_to_bzr_url=out)
-        model = dict(g2b=ctx.model(["g2b %s %s %s" % (cps(loc), ocps(br), ohx(rf))])[0])
+        m = ctx.model(["g2b %s %s %s" % (cps(loc), ocps(br), ohx(rf))])[0]
+        model = dict(g2b=m if m.startswith("E:") else uncps(m))
         if ok:
             ok2, t = call(I.urls.bzr_url_to_git_url, out)
             impl["bzr_url_to_git_url"] = repr(t)
@@ -1203,6 +1206,23 @@ def replay(ctx, case):
             if o["set"] == "ok" and (not o["full_ok"] or not equivalent_urls(I, o["full"], loc)):
                 ctx.violation(case, "branch %r: set_parent(%r) then get_parent() = %r" % (name, loc, o["full"]),
                               family=parent_family(I, name, pre if pre is not None else b"origin", loc, o))
+    elif k == "parent-file":
+        name, br_, rf = unjs(case["name"]), unjs(case["branch"]), unjb(case["ref"])
+        other = env.fresh_dir("parent")
+        u = I.urlutils.local_path_to_url(other)
+        params = {}
+        if br_:
+            params["branch"] = I.urlutils.escape(br_, safe="")
+        if rf:
+            params["ref"] = I.urlutils.quote_from_bytes(rf, safe="")
+        full = I.urlutils.join_segment_parameters(u, params) if params else u
+        o = run_parent_case(name, None, [full])[0]
+        impl = dict(set_parent=full.replace(other, "<dir>"), get_parent=str(o["full"]).replace(other, "<dir>"),
+                    config=[tuple(x.decode("utf-8", "replace") for x in e) for e in o["after"]])
+        model = "(relative parents are outside the model; oracle only)"
+        if o["set"] == "ok" and (not o["full_ok"] or not equivalent_urls(I, o["full"], full)):
+            ctx.violation(case, "branch %r: set_parent(%r) then get_parent() = %r" % (name, impl["set_parent"],
+                          impl["get_parent"]), family="non-url-location-drops-ref")
     else:
         raise ValueError("unknown case kind %r" % (k,))
     return dict(case=case, impl=impl, model=model,
